@@ -418,6 +418,17 @@ pub fn run(ctx: &mut Ctx) {
             ctx.eval(&Complete { x: e.bytes.clone(), ast: Some(ast), origin: "list-of-2^16-entries", enc_class: "canonical".into() });
         }
     }
+    // files with thousands of messages
+    for (i, n) in [4095usize, 4096, 4097, 10000].iter().enumerate() {
+        if ctx.mine(i as u64 + 9) {
+            let msgs = (0..*n)
+                .map(|j| AMsg { transaction_id: vec![(j % 251) as u8, (j / 251) as u8], group_no: 0, abort_on_error: 0, body: ABody::Close(AClose { global_signature: None }) })
+                .collect();
+            let ast = AFile { messages: msgs };
+            let e = encode_file(&ast, &Knobs::canonical(), &mut rng0);
+            ctx.eval(&Complete { x: e.bytes.clone(), ast: Some(ast), origin: "thousands-of-messages", enc_class: "canonical".into() });
+        }
+    }
     // messages whose checksum starts with a zero byte, encoded in the one-byte form (found by search)
     if ctx.shard == 0 {
         let mut found = 0;
